@@ -23,6 +23,11 @@ ALL = 1023
 FAILS = ["retry", "409", "401", "410", "other", "transport"]
 COQFAIL = {"retry": "FRetry", "409": "F409", "401": "F401", "410": "F410", "other": "FOther", "transport": "FTransport"}
 
+# status codes by class (the model maps them back with Status.fail_of_code; Status.v proves which codes are retryable)
+STATUS_CODES = {"retry": [408, 429, 500, 503], "409": [409], "401": [401], "410": [410],
+                "other": [400, 402, 403, 404, 405, 406, 407, 411, 412, 413, 414, 415, 416, 417, 418, 422, 426, 428, 431, 451,
+                          501, 502, 504, 505, 507, 511, 599, 300, 301, 302, 304, 307, 308, 201, 203, 204, 206, 100, 199, 600, 999]}
+
 V_NAMES = {101: "V_DUP_ACK", 102: "V_FOREIGN", 103: "V_LOST", 201: "V_DEAD_RESENT", 202: "V_ATTEMPTS",
            301: "V_VALID", 302: "V_TERMINAL_REPLY", 303: "V_TERMINAL_CONNECT", 304: "V_CONNECTED_UNSOUND",
            305: "V_NO_RETRY", 306: "V_NO_RESTART", 401: "V_PARAMS", 501: "V_HUNG", 502: "V_FINAL_DUP",
@@ -187,6 +192,10 @@ class HistGen:
     def build(self):
         getattr(self, "p_" + self.profile)()
         complete = [c for c in CATS if c not in self.over]     # pkgs: at most one package list per run
+        for o in self.ops:                                     # concrete status codes for the failure classes
+            out = o.get("out")
+            if isinstance(out, dict) and out.get("kind") == "fail" and "code" not in out and out["f"] in STATUS_CODES:
+                out["code"] = self.rng.choice(STATUS_CODES[out["f"]])
         return {"ops": self.ops, "profile": self.profile, "complete": complete}
 
     def p_all_ok(self):
@@ -378,6 +387,44 @@ class HistGen:
         # operations after the exit must have no effect
         self.ops.append({"op": "appinfo", "key": 1, "dt": False, "id": None})
 
+    def bulk(self, run, n):
+        """n plain transactions (one transaction event each) delivered in one harness step"""
+        tag0 = self.tag + 1
+        self.tag += n
+        prio0 = max(self.prios | {0}) + 1
+        for i in range(n):
+            self.prios.add(prio0 + i)
+        self.ops.append({"op": "bulk", "run": run, "n": n, "tag0": tag0, "prio0": prio0})
+        self.offered[(run, "txnev")] = self.offered.get((run, "txnev"), 0) + n
+        if self.offered[(run, "txnev")] > self.caps.get(run, {}).get("txnev", 100):
+            self.over.add("txnev")
+
+    def p_bulk(self):
+        """C02/C01: a transaction-event reservoir large enough to be split into two payloads (distributed
+        tracing on, at least MaxTxnEvents/2 events); the halves fail, are carried over and split again"""
+        rng = self.rng
+        caps = {c: 100 for c in EVENT_CATS}
+        caps["txnev"] = 10000
+        dt = rng.random() < 0.85
+        run = self.connect(1, dt=dt, caps=caps)
+        n0 = rng.choice([4999, 5000, 5001, 5200, 6000])
+        self.bulk(run, n0)
+        ty = ALL if rng.random() < 0.5 else BITS["txnev"]
+        nfail = rng.choice([2, 9, 10, 11, 12, 13])
+        for k in range(nfail):
+            self.tick(ah=0, ty=ty)
+            bad = rng.random() < 0.93
+            for c in CATS + ["txnev", "usage"]:
+                self.ops.append({"op": "replycat", "cat": c,
+                                 "out": {"kind": "fail", "f": "retry"} if (bad and c == "txnev") else {"kind": "ok"}})
+            if rng.random() < 0.3:
+                self.txn(run, rich=0.0)
+        for _ in range(2):
+            self.tick(ah=0, ty=ty)
+            self.drain(6, {"ok": 1})
+        if rng.random() < 0.5:
+            self.exit("ok")
+
     def p_capacity(self):
         """C05: small negotiated limits, several periods per category with more offers than the limit,
         per-type and combined harvests, accepting collector"""
@@ -426,7 +473,13 @@ def c_item(it):
 def c_outcome(o):
     if isinstance(o, str):
         return "OOk" if o == "ok" else "(OFail %s)" % COQFAIL[o]
-    return "OOk" if o["kind"] == "ok" else "(OFail %s)" % COQFAIL[o["f"]]
+    return "OOk" if o["kind"] == "ok" else "(OFail %s)" % c_fail(o)
+
+
+def c_fail(out):
+    if out.get("code"):
+        return "(fail_of_code %d%%N)" % out["code"]
+    return COQFAIL[out["f"]]
 
 
 def c_op(o):
@@ -444,7 +497,7 @@ def c_op(o):
             return "OPreReply %d (PreOk %d%%N)" % (o["n"], out["host"])
         if out["kind"] == "malformed":
             return "OPreReply %d PreMalformed" % o["n"]
-        return "OPreReply %d (PreFail %s)" % (o["n"], COQFAIL[out["f"]])
+        return "OPreReply %d (PreFail %s)" % (o["n"], c_fail(out))
     if k == "conn":
         out = o["out"]
         if out["kind"] == "ok":
@@ -455,7 +508,7 @@ def c_op(o):
             return "OConnReply %d ConnMalformed" % o["n"]
         if out["kind"] == "norunid":
             return "OConnReply %d ConnNoRunId" % o["n"]
-        return "OConnReply %d (ConnFail %s)" % (o["n"], COQFAIL[out["f"]])
+        return "OConnReply %d (ConnFail %s)" % (o["n"], c_fail(out))
     if k == "tick":
         return "OTick %d %d%%N" % (o["ah"], o["ty"])
     if k == "reply":
@@ -493,7 +546,7 @@ def c_step(s):
 
 
 PRELUDE = """From Coq Require Import NArith ZArith List Bool.
-From Verif Require Import Processor ProcMonitor.
+From Verif Require Import Processor ProcMonitor Status.
 Import ListNotations.
 Open Scope Z_scope.
 Definition mk_item (t : N) (p : Z) (k : N) : item := {| i_tag := t; i_prio := p; i_key := k |}.
@@ -509,6 +562,9 @@ Definition mk_oreq (k c : N) (owner host hdr run : Z) (tags : list Z) (cap seen 
      o_tags := sortZ tags; o_cap := cap; o_seen := seen |}.
 Definition mk_ostep (r : list oreq) (rep : option (bool * N)) (rrun : Z) (e h : bool) : ostep :=
   {| os_reqs := r; os_reply := rep; os_reply_run := rrun; os_exited := e; os_hung := h |}.
+Definition bulk_ops (run : N) (n : nat) (tag0 : N) (prio0 : Z) : list op :=
+  map (fun i => OTxn run (mk_txn [(CTxnEv, mk_item (tag0 + N.of_nat i) (prio0 + Z.of_nat i) 0)] None)) (seq 0 n).
+Definition bulk_steps (n : nat) (s : ostep) : list ostep := repeat (mk_ostep [] None 0 false false) (pred n) ++ [s].
 Definition case := (list op * list ostep * list N)%type.
 """
 
@@ -528,12 +584,34 @@ Print corr. Print viols. Print mviols.
 """
 
 
+def seg_lists(ops, steps):
+    """the operation and step lists of one case; a bulk operation (N plain transactions delivered in one
+    harness step) is expanded inside Coq: N OTxn operations, N-1 empty steps and the observed one"""
+    osegs, ssegs, cur_o, cur_s = [], [], [], []
+    for o, st in zip(ops, steps):
+        if o["op"] == "bulk":
+            if cur_o:
+                osegs.append("[" + ";\n   ".join(cur_o) + "]")
+                ssegs.append("[" + ";\n   ".join(cur_s) + "]")
+                cur_o, cur_s = [], []
+            osegs.append("bulk_ops %d%%N %d %d%%N (%d)%%Z" % (o["run"], o["n"], o["tag0"], o["prio0"]))
+            ssegs.append("bulk_steps %d %s" % (o["n"], c_step(st)))
+        else:
+            cur_o.append(c_op(o))
+            cur_s.append(c_step(st))
+    if cur_o or not osegs:
+        osegs.append("[" + ";\n   ".join(cur_o) + "]")
+        ssegs.append("[" + ";\n   ".join(cur_s) + "]")
+    if len(osegs) == 1:
+        return osegs[0], ssegs[0]
+    return "(" + " ++\n   ".join("(" + x + ")" for x in osegs) + ")", "(" + " ++\n   ".join("(" + x + ")" for x in ssegs) + ")"
+
+
 def cases_v(hists, obs):
     lines = [PRELUDE, "Definition cases : list case := ["]
     parts = []
     for h, o in zip(hists, obs):
-        ops = "[" + ";\n   ".join(c_op(x) for x in h["ops"]) + "]"
-        steps = "[" + ";\n   ".join(c_step(s) for s in o["steps"]) + "]"
+        ops, steps = seg_lists(h["ops"], o["steps"])
         cc = "[" + "; ".join("%d%%N" % CATS.index(c) for c in h["complete"]) + "]"
         parts.append("  (%s,\n   %s,\n   %s)" % (ops, steps, cc))
     lines.append(";\n".join(parts))
@@ -581,8 +659,9 @@ def run_harness(binary, hists, settle_us=2500, parallel=8, name="proc", timeout=
     inp = os.path.join(vlib.BUILD, name + "_in.json")
     outp = os.path.join(vlib.BUILD, name + "_out.json")
     json.dump({"histories": [{"ops": h["ops"]} for h in hists], "settle_us": settle_us, "parallel": parallel}, open(inp, "w"))
-    if os.path.exists(outp):
-        os.remove(outp)
+    for f in (outp, outp + ".cur"):
+        if os.path.exists(f):
+            os.remove(f)
     rc, out = vlib.run_go_test(binary, "TestVerifProc", {"VERIF_IN": inp, "VERIF_OUT": outp}, timeout=timeout)
     if rc != 0 or not os.path.exists(outp):
         return None, out
@@ -599,6 +678,12 @@ def run_and_evaluate(binary, hists, name="proc", settle_us=2500, parallel=8, sha
         # parallel): run the histories one at a time so that a failing history can still be pinned down
         obs, log2 = run_harness(binary, hists, settle_us=settle_us, parallel=1, name=name)
         log = log + "\n--- sequential re-run ---\n" + log2
+        cur = os.path.join(vlib.BUILD, name + "_out.json.cur")
+        if obs is None and os.path.exists(cur):
+            try:
+                return None, {"crash": int(open(cur).read().strip())}, log
+            except ValueError:
+                pass
     if obs is None:
         return None, None, log
     res = evaluate("cases_" + name, hists, obs, shards=shards)
